@@ -419,3 +419,38 @@ def tab_builtins(run):
                     got[ch] = val if val is not None else "computed"
         want = spec["escapes"]
         run.check(got == want, R, R + "|escapes", ex.loc(), "string escapes: %s" % sorted(got), "the escape table is %s, audited %s" % (got, want))
+
+
+
+def _shape(d):
+    """constructor and callee names of a provenance expression, in nesting order (arguments dropped)"""
+    names = re.findall(r"([A-Za-z_][\w:]*)\s*[({]", d)
+    return ">".join(names[:4])
+
+
+def builtin_value_shapes(prog):
+    from rules_sym import deep
+    out = {}
+    for f in prog.real_fns():
+        if not f.id.startswith("expr::builtin_fn::eval_builtin") or f.kind == "Closure":
+            continue
+        shapes = set()
+        for bi, si, st in f.stmts():
+            if st["k"] == "assign" and st["place"]["l"] == 0 and not st["place"]["p"] and st["rv"]["k"] == "agg" and st["rv"].get("variant") == "Ok":
+                shapes.add(_shape(deep(f, st["rv"]["ops"][0], 5)))
+        for bi, t in f.calls():
+            if t["dest"]["l"] == 0 and not t["dest"]["p"] and not (t.get("callee") or "").endswith("from_residual"):
+                shapes.add("call>" + _shape(deep(f, ("call", t, bi), 3)))
+        out[f.id.rsplit("::", 1)[-1]] = sorted(shapes)
+    return out
+
+
+def tab_builtin_values(run, R="TAB-op"):
+    """what each built-in function can answer with: the constructors and primitives its `Ok` values are built from must be the
+    audited ones (a second way of producing the answer - a shortcut for small sizes, say - has to be re-audited)"""
+    got = builtin_value_shapes(run.prog)
+    want = run.table("operators").get("builtin_values", {})
+    for name in sorted(set(got) | set(want)):
+        g_, w_ = got.get(name), want.get(name)
+        run.check(g_ == w_, R, R + "|builtin-value|" + name, "-", "%s answers with %s" % (name, g_),
+                  "%s answers with %s, the audited table says %s" % (name, g_, w_))
